@@ -144,6 +144,8 @@ class Substitutor(SchemaVisitor[GenericSchema]):
                     pass
                 else:
                     return schema.__class__(schema.props.update(elements=substituted))
+            if len(value) > 0:
+                raise SubstitutionError(f"Can't substitute {value!r} into {schema!r}")
 
         # head
         if (len(elements) >= 2) and is_ellipsis(elements[-1]):
